@@ -220,6 +220,8 @@ func runC07(c *Ctx) {
 			}
 		})
 		c.check(okDefer, "R3", "serveLoop closes the request channel", p.Pos(sl.Pos()), "defer close(pktChan)", "serveLoop can return without closing the request channel: the workers never end and Serve blocks in wg.Wait")
+	} else {
+		c.missing("R3", "(*RequestServer).serveLoop")
 	}
 	if rs := p.Func("(*RequestServer).Serve"); rs != nil {
 		var loopCall, wait, sweep ssa.Instruction
@@ -253,6 +255,8 @@ func runC07(c *Ctx) {
 			}
 		}
 		c.check(good, "R3", "RequestServer.Serve shutdown sequence", p.Pos(rs.Pos()), "serveLoop → wg.Wait() → sweep → return on every exit", "RequestServer.Serve can return without joining the workers and sweeping the open requests")
+	} else {
+		c.missing("R3", "(*RequestServer).Serve")
 	}
 	if d := getDispatcher(c, "R3"); d != nil {
 		// after the range loop: both worker channels closed, then the manager closed
@@ -284,6 +288,8 @@ func runC07(c *Ctx) {
 		})
 		_, plain := done.(*ssa.Call)
 		c.check(snd != nil && done != nil && plain && dominates(snd, done), "R3", "response queued before the barrier is released", p.Pos(rp.Pos()), "responses <- pkt; working.Done()", "working.Done() runs before the response is queued: at shutdown the controller can stop while workers still block on the responses channel, and Serve never returns")
+	} else {
+		c.missing("R3", "(*packetManager).readyPacket")
 	}
 	if cl := p.Func("(*packetManager).close"); cl != nil {
 		var wait, fin ssa.Instruction
@@ -300,6 +306,8 @@ func runC07(c *Ctx) {
 			}
 		})
 		c.check(wait != nil && fin != nil && dominates(wait, fin), "R3", "packet manager stops after pending work", p.Pos(cl.Pos()), "working.Wait(); close(fini)", "the controller is stopped before pending requests were answered")
+	} else {
+		c.missing("R3", "(*packetManager).close")
 	}
 	// a failing worker closes the connection so that the receive loop ends
 	for _, name := range []string{"(*Server).Serve", "(*RequestServer).Serve"} {
@@ -663,7 +671,6 @@ func checkPageInvariant(c *Ctx, rule string) {
 	c.check(okAll && n >= 2, rule, "allocator pages are maxMsgLength long", posS, "everything put on the page lists is a make([]byte, maxMsgLength) or came from the lists",
 		"a slice that is not a full maxMsgLength page can enter the allocator's lists: recvPacket and getDataSlice slice pages up to 256 KiB")
 }
-
 
 // checkAttrsValidatedAtDecode (C07.R6): a request that carries an ATTRS block (OPEN, MKDIR, SETSTAT, FSETSTAT) is
 // malformed when the block is shorter than its flags word announces.  The handlers consume the block only partly
